@@ -155,6 +155,14 @@ Definition is_chain (f : xfile) (ch : list (N * srec)) : Prop :=
   chain_from (f_at f) (Some (f_start f)) ch /\ NoDup (map fst ch).
 Definition wf_chain (f : xfile) : Prop := exists ch, is_chain f ch.
 
+(** a /Prev path of any file: from [cur] through the sections [ch] (newest first), arriving at [stop]
+    ([None]: the last section has no /Prev; [Some b]: the last /Prev is [b]) *)
+Fixpoint path_from (m : amap srec) (cur : option N) (ch : list (N * srec)) (stop : option N) : Prop :=
+  match ch with
+  | [] => cur = stop
+  | (o, r) :: older => cur = Some o /\ mfind o m = Some r /\ path_from m (s_prev r) older stop
+  end.
+
 (** no section of the file is a hybrid one *)
 Definition nonhybrid (f : xfile) : Prop :=
   forall o r, mfind o (f_at f) = Some r -> xrefstm_secs (f_at f) r = [].
